@@ -353,8 +353,8 @@ class QCow2Snapshot:
         extra_data = self.qcow2.fh.read(self.header.extra_data_size)
         self.extra = c_qcow2.QCowSnapshotExtraData(extra_data.ljust(len(c_qcow2.QCowSnapshotExtraData), b"\x00"))
 
-        unknown_extra_size = self.header.extra_data_size - len(c_qcow2.QCowSnapshotExtraData)
-        self.unknown_extra = self.qcow2.fh.read(unknown_extra_size) if unknown_extra_size > 0 else None
+        # Extra data beyond the fields we know is part of what we already read, not something that follows it
+        self.unknown_extra = extra_data[len(c_qcow2.QCowSnapshotExtraData) :] or None
 
         self.id_str = self.qcow2.fh.read(self.header.id_str_size).decode()
         self.name = self.qcow2.fh.read(self.header.name_size).decode()
